@@ -1,7 +1,120 @@
-From Coq Require Import ZArith List.
+(* C16 - ovnisort yields a stable sorted permutation and touches only what it must.
+   Only statements here; proofs are in Proofs/WinsortProofs.v; model and spec in Tools/WinsortDefs.v.
+
+   winsort n evs      = `ovnisort -n n` on one stream (None = exit status <> 0)
+   check_mode evs     = `ovnisort -c`
+   loader_accepts evs = the emulator's stream loader (monotone int64 clocks)
+   pre n evs          = spec scanner over the ORIGINAL stream: clocks never decrease outside region
+                        bodies, a body event is never later than its OU], the stream does not end
+                        inside a region, clocks fit int64, and for every non-empty region
+                          |body| + #{earlier events (OU[ included) with clock >= min body clock} + 2 <= n
+                        (the ring keeps n-1 events; the destination must be STRICTLY older).
+
+   Two clauses of the property are false for the faithful model and for the real tool
+   (C16_idempotent_refuted, C16_succeeds_refuted_empty); the check replays both. *)
+From Coq Require Import ZArith List Permutation.
 From OV Require Import Tools.WinsortDefs Proofs.WinsortProofs.
 Import ListNotations.
+Local Open Scope Z_scope.
 
-Theorem C16_empty : forall n, winsort n [] = None.
-Proof. exact winsort_empty. Qed.
-Print Assumptions C16_empty.
+(* Under the precondition the tool succeeds and its output IS the stable sort by clock.
+   _partial: the stream must have at least one event (see C16_succeeds_refuted_empty). *)
+Theorem C16_sorts_partial : forall n evs,
+  pre n evs -> evs <> [] -> winsort n evs = Some (ssort evs).
+Proof. exact winsort_is_ssort. Qed.
+Print Assumptions C16_sorts_partial.
+
+Theorem C16_succeeds_partial : forall n evs,
+  pre n evs -> evs <> [] -> exists out, winsort n evs = Some out.
+Proof. exact winsort_succeeds. Qed.
+Print Assumptions C16_succeeds_partial.
+
+(* FULL: forall n evs, pre n evs -> exists out, winsort n evs = Some out.  Refuted by the empty stream. *)
+Theorem C16_succeeds_refuted_empty :
+  exists n evs, pre n evs /\ winsort n evs = None /\ check_mode evs = false.
+Proof. exact winsort_succeeds_refuted_empty. Qed.
+Print Assumptions C16_succeeds_refuted_empty.
+
+(* The postconditions, without reference to ssort: same events (bytes are carried by the events),
+   non-decreasing clocks, equal-clock order preserved, everything before the earliest out-of-order
+   position untouched, same number of events and same total byte size, check mode passes, the
+   emulator's loader accepts. *)
+Theorem C16_postconditions : forall n evs out,
+  pre n evs -> evs <> [] -> winsort n evs = Some out ->
+  Permutation evs out /\ sorted out /\ stable evs out /\ prefix_untouched evs out /\
+  length out = length evs /\ total_size out = total_size evs /\
+  check_mode out = true /\ loader_accepts out = true.
+Proof. exact winsort_post. Qed.
+Print Assumptions C16_postconditions.
+
+(* sorted + stable leave no freedom: the specification fixes the output completely *)
+Theorem C16_spec_determines_output : forall evs o1 o2,
+  sorted o1 -> stable evs o1 -> sorted o2 -> stable evs o2 -> o1 = o2.
+Proof. exact post_determines_output. Qed.
+Print Assumptions C16_spec_determines_output.
+
+(* Second run.  _partial: it never changes a byte, and it succeeds whenever the sorted stream still
+   meets the precondition; but it may FAIL (C16_idempotent_refuted). *)
+Theorem C16_idempotent_partial : forall n evs out,
+  pre n evs -> evs <> [] -> winsort n evs = Some out ->
+  (winsort n out = Some out \/ winsort n out = None) /\ (pre n out -> winsort n out = Some out).
+Proof. exact winsort_idempotent_partial. Qed.
+Print Assumptions C16_idempotent_partial.
+
+(* FULL: forall n evs out, pre n evs -> winsort n evs = Some out -> winsort n out = Some out. *)
+Theorem C16_idempotent_refuted :
+  exists n evs out, pre n evs /\ evs <> [] /\ winsort n evs = Some out /\
+                    check_mode out = true /\ sorted out /\ winsort n out = None.
+Proof. exact winsort_idempotent_refuted. Qed.
+Print Assumptions C16_idempotent_refuted.
+
+(* any sorted stream (markers or not): a successful run leaves it as it is *)
+Theorem C16_sorted_input_unchanged : forall n l out,
+  sorted l -> Forall (fun e => clk_ok e = true) l -> winsort n l = Some out -> out = l.
+Proof. exact winsort_sorted_input. Qed.
+Print Assumptions C16_sorted_input_unchanged.
+
+(* Failure side: the stream is inside the precondition up to the body of a region (scanner state
+   PR s rb), the region is closed by t, and its proper position is outside the look-back window:
+   the tool fails (whatever follows). *)
+Theorem C16_fails_beyond_lookback : forall n l1 t rest p s rb,
+  prun n pinit l1 = Some p -> p_mode p = PR s rb -> rb <> [] ->
+  ends_unsorted_region t = true ->
+  lookback_ok n (p_before p ++ [s]) (rev rb) = false ->
+  winsort n (l1 ++ t :: rest) = None.
+Proof. exact winsort_fails_beyond_lookback. Qed.
+Print Assumptions C16_fails_beyond_lookback.
+
+(* Unconditional (no precondition at all): a successful run only permutes events; size is kept *)
+Theorem C16_never_loses_events : forall n evs out,
+  winsort n evs = Some out -> Permutation evs out /\ total_size out = total_size evs.
+Proof. exact winsort_permutation_always. Qed.
+Print Assumptions C16_never_loses_events.
+
+(* a stream without OU[ is left exactly as it is *)
+Theorem C16_no_region_untouched : forall n evs,
+  evs <> [] -> Forall (fun e => starts_unsorted_region e = false) evs -> winsort n evs = Some evs.
+Proof. exact winsort_no_region. Qed.
+Print Assumptions C16_no_region_untouched.
+
+(* check mode decides sortedness (of a stream with at least one event) *)
+Theorem C16_check_mode_iff : forall l, check_mode l = true <-> (l <> [] /\ sorted l).
+Proof. exact check_mode_iff. Qed.
+Print Assumptions C16_check_mode_iff.
+
+(* min_clock is the minimum (the spec's look-back condition uses it) *)
+Theorem C16_min_clock_spec : forall l, l <> [] ->
+  Forall (fun e => min_clock l <= clock e) l /\ exists e, In e l /\ clock e = min_clock l.
+Proof. exact min_clock_spec. Qed.
+Print Assumptions C16_min_clock_spec.
+
+(* ---- non-vacuity: three regions (one empty; one internally unordered with equal clocks and a
+   70016-byte jumbo event; one reaching the first event through equal clocks); -n exactly enough *)
+Example C16_ex_pre : pre 18 ex1 /\ ex1 <> [].
+Proof. split; [exact ex1_pre | discriminate]. Qed.
+Example C16_ex_sorts : winsort 18 ex1 = Some ex1_out /\ ex1_out <> ex1 /\ total_size ex1_out = 70232.
+Proof. split; [exact ex1_sorts | split; [exact ex1_changes | exact (proj1 ex1_size)]]. Qed.
+Example C16_ex_again : winsort 18 ex1_out = Some ex1_out /\ check_mode ex1_out = true.
+Proof. exact ex1_again. Qed.
+Example C16_ex_too_small : preb 17 ex1 = false /\ winsort 17 ex1 = None.
+Proof. exact ex1_too_small. Qed.
